@@ -38,7 +38,8 @@ META = {
         "DynaMOSA's goal graph rely on)",
         "a window is compared only if the instrumented run had the same outcome kind/exception type as the original run and the "
         "tracer neither raised into the subject nor was left disabled (C01/C04/C05 territory; counted as excluded)",
-        "str.startswith/endswith with tuple arguments are not generated (known C01 defect of the dynamic-seeding adapter)",
+        "the dynamic-seeding adapter is active as in production (install_import_hook adds it); a window in which it changed "
+        "the behaviour of the subject would be excluded as 'behaviour-diverged'",
     ],
     "level_text": "Generated programs x inputs against an independent interpreter-level oracle; exploration, not proof.",
     "level_note": "Trusted: CPython's sys.monitoring and dis, vf.gen.pygen's renderer.",
@@ -47,7 +48,7 @@ PLAN = {
     "quick": {"shards": 16, "examples": 320, "max_stmts": 14, "max_funcs": 2},
     "thorough": {"shards": 16, "examples": 8000, "timeout": 3000, "max_stmts": 25, "max_funcs": 3},
 }
-FEATURES = set(pygen.FEATURES) - {"strtuple"}
+FEATURES = set(pygen.FEATURES)
 
 
 def strategy(ctx) -> st.SearchStrategy:
